@@ -52,6 +52,9 @@ def shapes(tier):
     for case in ("count_mismatch", "non_rvdata", "covariance", "single_with_offsets", "ok_list", "ok_dict"):
         out.append({"what": "data", "case": case})
     out.append({"what": "joker_init"})
+    # the forms in which the parameters may be handed over (None = take them from the model; an explicitly empty
+    # collection is NOT "take them from the model"; list / dict / single variable)
+    out.append({"what": "pars_forms"})
     return out
 
 
@@ -232,6 +235,67 @@ def _run_prior(shape, res, sink):
     return ex
 
 
+def _run_pars_forms(shape, res, sink):
+    w = env.World()
+    pm = types.ModuleType("pymc")
+
+    class Model:
+        def __init__(self, named=None):
+            self.named_vars = dict(named or {})
+    pm.Model = Model
+    pm.modelcontext = lambda m: m if m is not None else Model()
+    pt = types.ModuleType("pytensor.tensor")
+
+    class TensorVariable(Par):
+        pass
+    pt.TensorVariable = TensorVariable
+    pt.random = types.SimpleNamespace(op=types.SimpleNamespace(RandomVariable=RandomVariable))
+    st = stack.Stack(world=w, load=("prior_helpers",), extra_shims={"pymc": pm, "pytensor.tensor": pt,
+                                                                     "thejoker.units": types.SimpleNamespace(UNIT_ATTR_NAME=UNIT_ATTR)})
+    st.shims["pytensor"] = types.SimpleNamespace(__version__="3.3.2", tensor=pt)
+    st.load("prior")
+    JP = st.prior.JokerPrior
+    names = ["P", "e", "omega", "M0", "s", "K", "v0"]
+
+    def good(name):
+        kind = "FixedCompanionMass" if name == "K" else "Normal"
+        un = _canonical(st, name)
+        return TensorVariable(name, {"has_unit": lambda: True, "unit": lambda un=un: un, "has_owner": lambda: True, "is_rv": lambda: True, "kind": lambda kind=kind: kind})
+
+    def harness():
+        full = {n: good(n) for n in names}
+        cases = [("pars=None, model holds all variables", lambda: JP(pars=None, model=Model(full)), None),
+                 ("pars=dict of all", lambda: JP(pars=dict(full), model=Model()), None),
+                 ("pars=list of all", lambda: JP(pars=list(full.values()), model=Model()), None),
+                 ("pars={} although the model holds variables of the right names", lambda: JP(pars={}, model=Model(full)), ValueError),
+                 ("pars=[] although the model holds variables of the right names", lambda: JP(pars=[], model=Model(full)), ValueError),
+                 ("pars=() and an empty model", lambda: JP(pars=(), model=Model()), ValueError),
+                 ("pars=None and an empty model", lambda: JP(pars=None, model=Model()), ValueError),
+                 ("pars=a single variable", lambda: JP(pars=full["P"], model=Model()), ValueError),
+                 ("pars=dict without K", lambda: JP(pars={k: v for k, v in full.items() if k != "K"}, model=Model(full)), ValueError)]
+        return [(lbl, _try(fn), exp) for lbl, fn, exp in cases]
+    ex = core.Explorer(max_paths=50)
+    twin = False
+    for path in ex.paths(harness):
+        core.Ctx.cur = path.ctx
+        try:
+            r, _, _ = path.check(core.SB(z3.BoolVal(False)))
+            twin = twin or r == "sat"
+            if path.raised is not None:
+                if isinstance(path.raised, core.UnsupportedByShim):
+                    raise path.raised
+                sink.check(path, "pars_forms.harness", core.SB(z3.BoolVal(False)), site="JokerPrior.__init__", describe=lambda m: {"raised": repr(path.raised)[:300]})
+                continue
+            for lbl, (ok, exc), exp in path.result:
+                good_ = (exp is None and ok) or (exp is not None and not ok and isinstance(exc, exp))
+                sink.check(path, "pars_forms", core.SB(z3.BoolVal(bool(good_))), site="JokerPrior.__init__.pars", describe=lambda m, lbl=lbl, exc=exc: {"case": lbl, "raised": repr(exc)[:150]},
+                           structural_claim=True)
+        finally:
+            core.Ctx.cur = None
+    res["twin_ok"] = twin
+    return ex
+
+
 def _run_data(shape, res, sink):
     st = stack.Stack(load=("prior_helpers", "likelihood_helpers"))
     st.load("data_helpers")
@@ -340,7 +404,7 @@ def _run_joker_init(shape, res, sink):
 def run_shape(shape, tier):
     res = new_result(shape)
     sink = VCSink(res, PROPERTY)
-    ex = {"prior": _run_prior, "data": _run_data, "joker_init": _run_joker_init}[shape["what"]](shape, res, sink)
+    ex = {"prior": _run_prior, "data": _run_data, "joker_init": _run_joker_init, "pars_forms": _run_pars_forms}[shape["what"]](shape, res, sink)
     fill_explorer(res, ex)
     if shape["what"] == "prior" and shape["param"] in ("K", "e", "dv0_1", "P"):
         res["witnesses"].append({"vc": "witness", "site": "prior", "shape": shape, "model": {"param": shape["param"], "scan": True}, "witness": True})
@@ -470,6 +534,21 @@ def _replay_other(shape, m):
              (lambda: validate_prepare_data({"a": d(1), "ab": d(1, 1)}, 1, 0), ValueError),
              (lambda: validate_prepare_data({1: d(1), 10: d(1, 1), 100: d(1, 2)}, 1, 1), ValueError),
              (lambda: validate_prepare_data({"hires": d(1), "harps": d(1, 1), "harpsn": d(2, 2)}, 1, 2), None)]
+    if shape["what"] == "pars_forms":
+        import pymc as pm
+        import thejoker.units as xu
+
+        def model_with_all():
+            with pm.Model() as mdl:
+                base = tj.JokerPrior.default(P_min=2 * u.day, P_max=100 * u.day, sigma_K0=30 * u.km / u.s, sigma_v=10 * u.km / u.s)
+            return mdl, base
+        mdl, base = model_with_all()
+        full = dict(base.pars)
+        cases = [(lambda: tj.JokerPrior(pars=dict(full), model=mdl), None), (lambda: tj.JokerPrior(pars=list(full.values()), model=mdl), None),
+                 (lambda: tj.JokerPrior(pars={}, model=mdl), ValueError), (lambda: tj.JokerPrior(pars=[], model=mdl), ValueError),
+                 (lambda: tj.JokerPrior(pars=(), model=pm.Model()), ValueError), (lambda: tj.JokerPrior(pars=None, model=pm.Model()), ValueError),
+                 (lambda: tj.JokerPrior(pars=full["P"], model=pm.Model()), ValueError),
+                 (lambda: tj.JokerPrior(pars={k: v for k, v in full.items() if k != "K"}, model=mdl), ValueError)]
     if shape["what"] == "joker_init":
         prior = tj.JokerPrior.default(P_min=2 * u.day, P_max=100 * u.day, sigma_K0=30 * u.km / u.s, sigma_v=10 * u.km / u.s)
         import types as _t
